@@ -5,12 +5,16 @@ import (
 	"fmt"
 	"time"
 
+	protoMetricsV1 "github.com/lindb/common/proto/gen/v1/linmetrics"
+
 	"github.com/lindb/lindb/models"
 	"github.com/lindb/lindb/pkg/option"
 	"github.com/lindb/lindb/pkg/timeutil"
 	querycontext "github.com/lindb/lindb/query/context"
+	"github.com/lindb/lindb/series/metric"
 	"github.com/lindb/lindb/sql/stmt"
 
+	"lindbverif/node"
 	"lindbverif/vh"
 )
 
@@ -53,6 +57,42 @@ func calcCase(out *vh.Out, off int, tn int, ts int64, iv int64, boundary bool) {
 	}
 	out.Check(idx, fmt.Sprintf("check_calc %s %s %s %s {| c_seg := %s; c_family := %s; c_start := %s; c_ftime := %s; c_end := %s; c_slot := %s; c_next_ftime := %s; c_end_ftime := %s |}",
 		vh.Z(int64(off)), vh.Z(int64(tn)), vh.Z(ts), vh.Z(iv), vh.Z(seg), vh.Z(int64(fam)), vh.Z(start), vh.Z(ftime), vh.Z(end), vh.Z(int64(slot)), vh.Z(nextF), vh.Z(endF)))
+}
+
+// brokerCase groups a batch of rows (one per timestamp, arrival order) with the broker's shard and family iterators.
+func brokerCase(out *vh.Out, off int, iv int64, tss []int64) {
+	batch := metric.NewBrokerBatchRows()
+	defer batch.Release()
+	for _, ts := range tss {
+		block := node.Block(&protoMetricsV1.Metric{Name: "m", Namespace: "ns", Timestamp: ts,
+			SimpleFields: []*protoMetricsV1.SimpleField{{Name: "f", Type: protoMetricsV1.SimpleFieldType_DELTA_SUM, Value: 1}}})
+		if err := batch.TryAppend(func(row *metric.BrokerRow) error { row.FromBlock(block); return nil }); err != nil {
+			out.Violation(0, "append", err.Error(), nil)
+			return
+		}
+	}
+	var groups []string
+	var groupsJ []interface{}
+	ngroups := 0
+	it := batch.NewShardGroupIterator(1)
+	for it.HasRowsForNextShard() {
+		_, fit := it.FamilyRowsForNextShard(timeutil.Interval(iv))
+		for fit.HasNextFamily() {
+			ft, rows := fit.NextFamily()
+			var members []int64
+			for i := range rows {
+				m := rows[i].Metric()
+				members = append(members, m.Timestamp())
+			}
+			groups = append(groups, vh.Pair(vh.Z(ft), vh.ZList(members)))
+			groupsJ = append(groupsJ, map[string]interface{}{"family": ft, "timestamps": members})
+			ngroups++
+		}
+	}
+	idx := out.Case(map[string]interface{}{"kind": "broker-batch", "zone_offset": off, "interval": iv, "timestamps": tss, "groups": groupsJ}, ngroups >= 2 && len(tss) >= 3)
+	out.Count("broker-batch")
+	out.Count(fmt.Sprintf("broker-batch-groups:%d", ngroups))
+	out.Check(idx, fmt.Sprintf("check_broker %s %s %s %s", vh.Z(int64(off)), vh.Z(iv), vh.ZList(tss), vh.List(groups)))
 }
 
 func main() {
@@ -110,6 +150,38 @@ func main() {
 			tn := r.Intn(3)
 			ivs := intervals[tn]
 			calcCase(out, off, tn, ts, ivs[r.Intn(len(ivs))], false)
+		}
+		// ---- the broker's grouping of a batch by family: timestamps around family boundaries in arrival order
+		for i := 0; i < cfg.N/8+6; i++ {
+			tn := r.Intn(3)
+			ivs := intervals[tn]
+			iv := ivs[r.Intn(len(ivs))]
+			base := int64(r.U64() % uint64(4000000000000))
+			// a boundary of the family that contains base
+			calc := timeutil.Interval(iv).Calculator()
+			fstart := calc.CalcFamilyTime(base)
+			fend := calc.CalcFamilyEndTime(fstart)
+			n := r.Range(2, 7)
+			var tss []int64
+			for j := 0; j < n; j++ {
+				switch r.Intn(5) {
+				case 0:
+					tss = append(tss, fend-int64(r.Intn(30000)))
+				case 1:
+					tss = append(tss, fend+1+int64(r.Intn(30000)))
+				case 2:
+					tss = append(tss, fstart+int64(r.Intn(30000)))
+				case 3:
+					if fstart > 40000 {
+						tss = append(tss, fstart-1-int64(r.Intn(30000)))
+					} else {
+						tss = append(tss, fstart)
+					}
+				default:
+					tss = append(tss, fstart+int64(r.U64()%uint64(fend-fstart+1)))
+				}
+			}
+			brokerCase(out, off, iv, tss)
 		}
 	}
 	time.Local = time.UTC
